@@ -56,7 +56,8 @@ LitPool == [
   uint |-> << <<"3", V("3")>>, <<"10", V("10")>>, <<"42", V("42")>> >>,
   pint |-> << <<"5", <<"SInt", V("5")>> >>, <<"+9", <<"SInt", V("9")>> >>, <<"0", <<"SInt", V("0")>> >> >>,
   nint |-> << <<"-2", <<"SInt", V("-2")>> >>, <<"-10", <<"SInt", V("-10")>> >> >>,
-  sint |-> << <<"5", <<"SInt", V("5")>> >>, <<"-2", <<"SInt", V("-2")>> >>, <<"+9", <<"SInt", V("9")>> >> >>,
+  \* positive values first: the first subrange of a declaration has positive bounds, later ones a negative bound
+  sint |-> << <<"5", <<"SInt", V("5")>> >>, <<"+9", <<"SInt", V("9")>> >>, <<"0", <<"SInt", V("0")>> >>, <<"-2", <<"SInt", V("-2")>> >> >>,
   tint |-> << <<"INT#5", Int("INT", "5")>>, <<"UDINT#16#10", Int("UDINT", "16")>>, <<"SINT#-3", Int("SINT", "-3")>> >>,
   real |-> << <<"1.5", Real("-", "1.5")>>, <<"2.5E3", Real("-", "2500.0")>>, <<"REAL#0.25", Real("REAL", "0.25")>>,
               <<"1.0e-2", Real("-", "0.01")>> >>,
@@ -131,8 +132,8 @@ ExprProds == [
   variable |-> { Pr("", 0, <<ID, R("Ref", 1), N("var_t")>>),
                  Pr("var:direct", 1, <<L("addr")>>) },
   var_t    |-> { Eps,
-                 Pr("var:field", 1, <<Tg("."), IDg, R("Field", 2), N("var_t")>>),
-                 Pr("var:index", 1, <<Tg("["), Nil, N("expr"), S, N("subs_r"), T("]"), R("Index", 2), N("var_t")>>) },
+                 Pr("var:field", 1, <<T("."), ID, R("Field", 2), N("var_t")>>),
+                 Pr("var:index", 1, <<T("["), Nil, N("expr"), S, N("subs_r"), T("]"), R("Index", 2), N("var_t")>>) },
   subs_r   |-> { Eps, Pr("var:index2", 1, <<T(","), N("expr"), S, N("subs_r")>>) },
   \* B.3.2.2 parameter assignments (function calls and function block invocations)
   params   |-> { Pr("", 0, <<Nil>>), Pr("", 0, <<Nil, N("param"), S, N("params_r")>>) },
@@ -164,7 +165,7 @@ StmtProds == [
   case_sels |-> { Eps, Pr("case:sel2", 1, <<T(","), N("case_sel"), S, N("case_sels")>>) },
   case_sel |-> { Pr("case:int", 0, <<L("pint")>>),
                  Pr("case:negint", 1, <<L("nint")>>),
-                 Pr("case:range", 1, <<L("sint"), Tg(".."), Lg("sint"), R("Range", 2)>>),
+                 Pr("case:range", 1, <<L("sint"), T(".."), L("sint"), R("Range", 2)>>),
                  Pr("case:enum", 1, <<None, ID, R("EnumVal", 2)>>),
                  Pr("case:tenum", 1, <<ID, Tg("#"), IDg, R("EnumVal", 2)>>) }
 ]
@@ -176,7 +177,7 @@ DeclProds == [
   tdecl    |-> { Pr("", 0, <<ID, T(":"), N("tspec"), R("TypeDecl", 2)>>) },
   tspec    |-> { Pr("type:enum", 0, <<T("("), Nil, N("enumval"), S, N("enumvals_r"), T(")"), N("enum_init"), R("EnumInline", 2)>>),
                  Pr("type:enumref", 1, <<ID, T(":="), N("enumval"), R("TRef", 2)>>),
-                 Pr("type:subrange", 1, <<L("itype"), T("("), L("sint"), Tg(".."), Lg("sint"), T(")"), N("sint_init"), R("SubrInline", 4)>>),
+                 Pr("type:subrange", 1, <<L("itype"), T("("), L("sint"), T(".."), L("sint"), T(")"), N("sint_init"), R("SubrInline", 4)>>),
                  Pr("type:simple", 1, <<L("etype"), T(":="), N("constant"), R("TRef", 2)>>),
                  Pr("type:simpleref", 1, <<ID, T(":="), N("constant"), R("TRef", 2)>>),
                  Pr("type:array", 1, <<N("arrspec"), N("arr_init"), R("ArrInline", 3)>>),
@@ -194,7 +195,7 @@ DeclProds == [
   str_init   |-> { Pr("", 0, <<None>>), Pr("string:init", 1, <<T(":="), L("str")>>) },
   wstr_init  |-> { Pr("", 0, <<None>>), Pr("string:init", 1, <<T(":="), L("wstr")>>) },
   arrspec    |-> { Pr("", 0, <<T("ARRAY"), T("["), Nil, N("range"), S, N("ranges_r"), T("]"), T("OF"), N("typename")>>) },
-  range      |-> { Pr("", 0, <<L("sint"), Tg(".."), Lg("sint"), R("Range", 2)>>) },
+  range      |-> { Pr("", 0, <<L("sint"), T(".."), L("sint"), R("Range", 2)>>) },
   ranges_r   |-> { Eps, Pr("array:dim2", 1, <<T(","), N("range"), S, N("ranges_r")>>) },
   typename   |-> { Pr("", 0, <<L("etype")>>), Pr("tref:derived", 0, <<ID>>) },
   arr_init   |-> { Pr("", 0, <<Nil>>), Pr("array:init", 1, <<T(":="), N("arr_initv")>>) },
@@ -202,8 +203,8 @@ DeclProds == [
   arr_els_r  |-> { Eps, Pr("array:init2", 1, <<T(","), N("arr_el"), S, N("arr_els_r")>>) },
   arr_el     |-> { Pr("", 0, <<N("constant")>>),
                    Pr("array:enumel", 1, <<N("enumval")>>),
-                   Pr("array:repeat", 1, <<L("uint"), T("("), G, N("arr_el1"), Tg(")"), R("Rep", 2)>>),
-                   Pr("array:repeat0", 1, <<L("uint"), T("("), None, Tg(")"), R("Rep", 2)>>) },
+                   Pr("array:repeat", 1, <<L("uint"), T("("), N("arr_el1"), T(")"), R("Rep", 2)>>),
+                   Pr("array:repeat0", 1, <<L("uint"), T("("), None, T(")"), R("Rep", 2)>>) },
   arr_el1    |-> { Pr("", 0, <<N("constant")>>), Pr("array:enumel", 1, <<N("enumval")>>) },
   structinit |-> { Pr("", 0, <<T("("), Nil, N("elinit"), S, N("elinits_r"), T(")")>>) },
   elinits_r  |-> { Eps, Pr("structinit:more", 1, <<T(","), N("elinit"), S, N("elinits_r")>>) },
@@ -220,7 +221,7 @@ DeclProds == [
                    Pr("selem:refinit", 1, <<ID, T(":="), N("constant"), R("TRef", 2)>>),
                    Pr("selem:refenum", 1, <<ID, T(":="), N("enumval"), R("TRef", 2)>>),
                    Pr("selem:enum", 1, <<T("("), Nil, N("enumval"), S, N("enumvals_r"), T(")"), N("enum_init"), R("EnumInline", 2)>>),
-                   Pr("selem:subrange", 1, <<L("itype"), T("("), L("sint"), Tg(".."), Lg("sint"), T(")"), N("sint_init"), R("SubrInline", 4)>>),
+                   Pr("selem:subrange", 1, <<L("itype"), T("("), L("sint"), T(".."), L("sint"), T(")"), N("sint_init"), R("SubrInline", 4)>>),
                    Pr("selem:array", 1, <<N("arrspec"), N("arr_init"), R("ArrInline", 3)>>),
                    Pr("selem:structinit", 1, <<ID, T(":="), N("structinit"), R("StructInit", 2)>>),
                    Pr("selem:string", 1, <<T("STRING"), PV("STRING"), None, None, R("StrSpec", 3)>>) }
@@ -248,7 +249,7 @@ PouProds == [
   vspec_io |-> { Pr("vspec:elem", 0, <<L("etype"), None, R("TRef", 2)>>),
                  Pr("vspec:ref", 1, <<ID, None, R("TRef", 2)>>),
                  Pr("vspecio:enum", 1, <<T("("), Nil, N("enumval"), S, N("enumvals_r"), T(")"), None, R("EnumInline", 2)>>),
-                 Pr("vspecio:subrange", 1, <<L("itype"), T("("), L("sint"), Tg(".."), Lg("sint"), T(")"), None, R("SubrInline", 4)>>),
+                 Pr("vspecio:subrange", 1, <<L("itype"), T("("), L("sint"), T(".."), L("sint"), T(")"), None, R("SubrInline", 4)>>),
                  Pr("vspecio:array", 1, <<N("arrspec"), Nil, R("ArrInline", 3)>>),
                  Pr("vspecio:string", 1, <<T("STRING"), PV("STRING"), N("str_len"), None, R("StrSpec", 3)>>) },
   group_io |-> { Pr("", 0, <<N("names"), T(":"), N("vspec_io"), R("Group", 2)>>) },
